@@ -176,6 +176,7 @@ type retained struct {
 	bc  barcode.Barcode
 	obs observation
 	res *CallResult
+	mut bool // the argument buffer was overwritten after the call
 }
 
 // env is per-segment shared state visible to all workers (read-only after setup).
@@ -243,6 +244,14 @@ func encodeCall(c *Call, e *env, buf []byte) (barcode.Barcode, error) {
 			return twooffive.Encode(s, c.F1)
 		}
 		return twooffive.EncodeWithColor(s, c.F1, schemes[c.Color])
+	case "same":
+		// the segment-wide shared instance itself (several callers observe one barcode)
+		if c.Share && e != nil {
+			if src := e.shared[callKey(c.Src)]; src != nil {
+				return src, nil
+			}
+		}
+		return encodeCall(c.Src, e, append([]byte(nil), c.Src.B...))
 	case "scale":
 		var src barcode.Barcode
 		if c.Share && e != nil {
@@ -349,6 +358,7 @@ func execCall(c *Call, e *env, keep *[]retained, slot *CallResult) {
 	obs := observe(bc)
 	slot.Class = "ok"
 	slot.Digest = obs.digest()
+	slot.W, slot.H = bc.Bounds().Dx(), bc.Bounds().Dy()
 	if c.Mut {
 		for i := range buf {
 			buf[i] ^= 0x5a
@@ -359,8 +369,11 @@ func execCall(c *Call, e *env, keep *[]retained, slot *CallResult) {
 			slot.MutWhat = d
 		}
 		if keep != nil {
-			*keep = append(*keep, retained{bc: bc, obs: obs, res: slot})
+			*keep = append(*keep, retained{bc: bc, obs: obs, res: slot, mut: true})
 		}
+	} else if keep != nil && len(*keep) < 48 && !(c.Fn == "same" && c.Share) {
+		// every returned barcode is a value: look at it again after later calls
+		*keep = append(*keep, retained{bc: bc, obs: obs, res: slot})
 	}
 }
 
@@ -376,8 +389,12 @@ func finishProgram(keep []retained) {
 			}()
 			after := observe(r.bc)
 			r.res.EndDig = after.digest()
-			if d := r.obs.diff(after); d != "" && r.res.MutWhat == "" {
-				r.res.MutWhat = d + " (later)"
+			if d := r.obs.diff(after); d != "" {
+				if r.mut && r.res.MutWhat == "" {
+					r.res.MutWhat = d + " (later)"
+				} else if !r.mut {
+					r.res.LaterWhat = d
+				}
 			}
 		}()
 	}
